@@ -1,5 +1,6 @@
 import Infretis.Model.Proto
 import Infretis.Model.Readers
+import Infretis.Model.ReadersObj
 open Infretis Infretis.Proto Infretis.Readers
 
 /-!
@@ -11,6 +12,12 @@ Line protocol of the C13 driver.
   lspec <m len₁ … len_m> <K> <n c₁ … cₙ> × K                  `lmpStages` on frame indices
   trrhdr <hex bytes>                                          `trrHeader` (read_trr_header at byte level)
   trr  <2m h₁ d₁ … h_m d_m> <n size₁ … sizeₙ>                 `trrRun` events (r:off:len:size, y:k, w)
+  rpx  <asIs|repaired> <hex content> <K> <n e₁ … eₙ> × K      the reader OBJECT (`rpRun`, xyz): eᵢ = 0 file absent,
+  rpl  <hex content> <K> <n e₁ … eₙ> × K                         c+1 = c bytes visible; stage = cur,prev:frames
+  xspecp / lspecp <m len₁ … len_m> <K> <n e₁ … eₙ> × K        `exactStagesPos` / `lmpStagesPos`: stage = pos:indices
+  rpf  <x-asIs|x-repaired|l> <n> <hex|~> × n                  the reader object on ARBITRARY file states (~ = absent)
+  trrdata <hex bytes>                                         `trrHeader` then `trrData` (get_data) on the rest
+  gmx  <hex file> <K> <n size₁ … sizeₙ> × K                   `gGen`: the whole get_gromacs_frames generator at byte level
 
 Answer: the K results joined by " # ".  One result = stages joined by " | "; one stage =
 `<new position>:<frames joined by ;>`; a raised exception ends the result with `!<kind>`.
@@ -131,4 +138,121 @@ def handle (toks : List String) : String :=
     | none => "bad-op"
   | _ => "bad-op"
 
-def main : IO Unit := mainWith handle
+/-! ### extension pass: the reader object, TRR data layout, the whole TRR generator -/
+
+def showRP (o : RP) : String := toString o.cur ++ "," ++ toString o.prev
+
+def showObjRun {F : Type} (showF : F → String) (r : Except Err (List (List F × RP))) : String :=
+  match r with
+  | .error e => "!" ++ showErr e
+  | .ok stages => " | ".intercalate (stages.map (fun s => showRP s.2 ++ ":" ++ ";".intercalate (s.1.map showF)))
+
+/-- run the object poll by poll so that the stages before an exception are shown, too -/
+def objTrace {F : Type} (readerO : List Char → RP → Except Err (List F × RP)) (showF : F → String) :
+    List (Option (List Char)) → RP → List String
+  | [], _ => []
+  | f :: fs, o =>
+    match rpPoll readerO o f with
+    | .error e => ["!" ++ showErr e]
+    | .ok (frames, o') => (showRP o' ++ ":" ++ ";".intercalate (frames.map showF)) :: objTrace readerO showF fs o'
+
+/-- the trace, cross-checked against `rpRun` (the function the theorems speak about) -/
+def objResult {F : Type} (readerO : List Char → RP → Except Err (List F × RP)) (showF : F → String)
+    (files : List (Option (List Char))) : String :=
+  let tr := objTrace readerO showF files rpInit
+  let a := " | ".intercalate tr
+  let via := match tr.getLast? with
+    | some l => if l.startsWith "!" then l else a
+    | none => ""
+  if via = showObjRun showF (rpRun readerO files rpInit) then a else "INCONSISTENT " ++ a
+
+def decEv (n : Nat) : Option Nat := if n = 0 then none else some (n - 1)
+
+def showPosStages (st : List (List Nat × Nat)) : String :=
+  " | ".intercalate (st.map (fun s => toString s.2 ++ ":" ++ ",".intercalate (s.1.map toString)))
+
+def hashBytes (bs : List Nat) : Nat := bs.foldl (fun a b => (a * 257 + b + 1) % 1000000007) 7
+
+def showBlocks (bl : List (Nat × List Nat)) : String :=
+  ",".intercalate (bl.map (fun b => s!"{b.1}:{b.2.length}:{hashBytes b.2}"))
+
+def showTErr : TErr → String
+  | .eof => "eof" | .struct => "struct" | .value => "value" | .zerodiv => "zerodiv"
+
+def showGEv : GEv → String
+  | .read o l s => s!"r:{o}:{l}:{s}"
+  | .yield bl => "y:" ++ showBlocks bl
+  | .wait => "w"
+  | .stale => "s"
+  | .raise e => "!" ++ showTErr e
+  | .spin => "spin"
+
+def files? : List String → Option (List (Option (List Char)))
+  | [] => some []
+  | t :: ts =>
+    match (if t = "~" then some none else (content? t).map some), files? ts with
+    | some f, some r => some (f :: r)
+    | _, _ => none
+
+def handleExt (toks : List String) : Option String :=
+  match toks with
+  | "rpx" :: v :: h :: k :: rest =>
+    let var : Option Variant := if v = "asIs" then some .asIs else if v = "repaired" then some .repaired else none
+    match var, content? h, (parseNat? k).bind (fun k => takeSeqs k rest) with
+    | some var, some content, some seqs =>
+      some (" # ".intercalate (seqs.map (fun evs => objResult (xyzReaderO var) showX (visible content (evs.map decEv)))))
+    | _, _, _ => none
+  | "rpl" :: h :: k :: rest =>
+    match content? h, (parseNat? k).bind (fun k => takeSeqs k rest) with
+    | some content, some seqs =>
+      some (" # ".intercalate (seqs.map (fun evs => objResult lmpReaderO showL (visible content (evs.map decEv)))))
+    | _, _ => none
+  | "xspecp" :: rest =>
+    match takeList parseNat? rest with
+    | some (lens, k :: rest) =>
+      (((parseNat? k).bind (fun k => takeSeqs k rest))).map (fun seqs =>
+        " # ".intercalate (seqs.map (fun evs =>
+          showPosStages (exactStagesPos lens (List.range lens.length) (evs.map decEv) 0))))
+    | _ => none
+  | "lspecp" :: rest =>
+    match takeList parseNat? rest with
+    | some (lens, k :: rest) =>
+      (((parseNat? k).bind (fun k => takeSeqs k rest))).map (fun seqs =>
+        " # ".intercalate (seqs.map (fun evs =>
+          showPosStages (lmpStagesPos lens (List.range lens.length) (evs.map decEv) 0 false))))
+    | _ => none
+  | "rpf" :: kind :: n :: rest =>
+    match parseNat? n, files? rest with
+    | some n, some files =>
+      if files.length ≠ n then none
+      else if kind = "x-asIs" then some (objResult (xyzReaderO .asIs) showX files)
+      else if kind = "x-repaired" then some (objResult (xyzReaderO .repaired) showX files)
+      else if kind = "l" then some (objResult lmpReaderO showL files)
+      else none
+    | _, _ => none
+  | ["trrdata", h] =>
+    match unhex h with
+    | none => none
+    | some bs =>
+      match trrHeader (bs.map (·.toNat)) with
+      | .error e => some ("hdr:" ++ showTErr e)
+      | .ok (hd, rest) =>
+        let r := trrData hd rest
+        let used := rest.length - r.rest.length
+        match r.res with
+        | .ok bl => some s!"ok {dataSize hd.ints} {used} {showBlocks bl}"
+        | .error e => some s!"err:{showTErr e} {dataSize hd.ints} {used}"
+  | "gmx" :: h :: k :: rest =>
+    match unhex h, (parseNat? k).bind (fun k => takeSeqs k rest) with
+    | some bs, some seqs =>
+      let file := bs.map (·.toNat)
+      some (" # ".intercalate (seqs.map (fun sizes => " ".intercalate ((gGen file sizes).map showGEv))))
+    | _, _ => none
+  | _ => none
+
+def handleAll (toks : List String) : String :=
+  match handleExt toks with
+  | some s => s
+  | none => handle toks
+
+def main : IO Unit := mainWith handleAll
